@@ -28,7 +28,19 @@ u1  v_nondet_bool(void) { u1 r = nondet_bool(); return r; }
 #ifndef V_PARAM3
 #define V_PARAM3 0
 #endif
-u32 v_param(u32 k) { return k == 0 ? V_PARAM0 : k == 1 ? V_PARAM1 : k == 2 ? V_PARAM2 : V_PARAM3; }
+#ifndef V_PARAM4
+#define V_PARAM4 0
+#endif
+#ifndef V_PARAM5
+#define V_PARAM5 0
+#endif
+#ifndef V_PARAM6
+#define V_PARAM6 0
+#endif
+#ifndef V_PARAM7
+#define V_PARAM7 0
+#endif
+u32 v_param(u32 k) { switch (k) { case 0: return V_PARAM0; case 1: return V_PARAM1; case 2: return V_PARAM2; case 3: return V_PARAM3; case 4: return V_PARAM4; case 5: return V_PARAM5; case 6: return V_PARAM6; case 7: return V_PARAM7; default: return 0; } }
 void __cxa_pure_virtual(void) { __CPROVER_assert(0, "pure virtual call"); __CPROVER_assume(0); }
 void _ZSt9terminatev(void) { __CPROVER_assert(0, "std::terminate"); __CPROVER_assume(0); }
 void abort(void) { __CPROVER_assert(0, "abort"); __CPROVER_assume(0); }
